@@ -51,18 +51,22 @@ class Cat(Node):
 
 
 def tokenize(text):
-    pos = 0; out = []
+    """returns (tokens, glued) where glued[i] is True when token i follows the previous one without whitespace
+    (an ellipsis applies to the preceding atom only when it is glued to it)"""
+    pos = 0; out = []; glued = []
     text = text.rstrip()
     while pos < len(text):
         m = TOK.match(text, pos)
         if not m:
             raise ParseError(f"bad char at {pos}")
-        out.append(m.group(1)); pos = m.end()
-    return out
+        out.append(m.group(1)); glued.append(m.start(1) == pos and pos > 0); pos = m.end()
+    return out, glued
 
 
 class P:
-    def __init__(s, toks): s.t = toks; s.i = 0
+    def __init__(s, toks):
+        s.t, s.g = toks; s.i = 0
+    def glued(s): return s.i < len(s.t) and s.g[s.i]
     def peek(s): return s.t[s.i] if s.i < len(s.t) else None
     def eat(s, x=None):
         tok = s.peek()
@@ -93,7 +97,7 @@ class P:
         if s.peek() == "...":
             s.eat(); return Ell(None)
         a = s.atom()
-        if s.peek() == "...":
+        if s.peek() == "..." and s.glued():
             s.eat(); return Ell(a)
         return a
 
@@ -228,7 +232,7 @@ def check_brackets(tensors):
     rec(tensors, False)
 
 
-def all_solutions(tensors, shapes, sizes, max_rep=3):
+def all_solutions(tensors, shapes, sizes, max_rep=3, free_witnesses=False):
     """every (ellipsis counts, expanded tensors, axis values) consistent with the constraints; raises Ambiguous when some axis is
     not constrained at all (infinitely many solutions)."""
     check_depths(tensors)
@@ -252,7 +256,7 @@ def all_solutions(tensors, shapes, sizes, max_rep=3):
                 if not es or any(counts[id(e)] != len(v) for e in es): ok = False
         if not ok: continue
         ex = [expand(t, counts) for t in tensors]
-        for vals in solve_values(ex, shapes, sizes):
+        for vals in solve_values(ex, shapes, sizes, free_witnesses):
             sols.append((combo, ex, vals))
     return sols
 
@@ -324,7 +328,7 @@ def flat_items(items):
     return out
 
 
-def solve_values(ex, shapes, sizes):
+def solve_values(ex, shapes, sizes, free_witnesses=False):
     # variables
     names = []
     for n in walk(ex):
@@ -348,9 +352,10 @@ def solve_values(ex, shapes, sizes):
     constrained = set(fixed)
     for d, s in eqs: constrained |= {x.name for x in walk(d) if isinstance(x, Axis)}
     free = [n for n in names if n not in constrained]
-    if free: raise Ambiguous()
+    if free and not free_witnesses: raise Ambiguous()
     M = max([1] + [s for _, s in eqs] + list(fixed.values()))
     order = [n for n in names if n not in fixed]
+    dom = {n: ((1, 2) if n in free else range(1, M + 1)) for n in order}   # an unconstrained axis: two witnesses suffice to show non-uniqueness
     eqvars = [({x.name for x in walk(d) if isinstance(x, Axis)}, d, s) for d, s in eqs]
     out = []
 
@@ -360,7 +365,7 @@ def solve_values(ex, shapes, sizes):
                 if value(d, vals) != s: return
         if i == len(order):
             out.append(dict(vals)); return
-        for v in range(1, M + 1):
+        for v in dom[order[i]]:
             vals[order[i]] = v
             rec(i + 1, vals)
             del vals[order[i]]
